@@ -648,6 +648,76 @@ func RunGraphFiles(files []string, out string) error {
 	return nil
 }
 
+// RunAllTypes creates one node of every registered type (chunks of `chunk` nodes per
+// application), connects nothing, and puts each application through
+// save -> load -> save. Written as "file" lines (same judgement as shipped graph files).
+func RunAllTypes(out string, chunk int) error {
+	fo, err := os.Create(out)
+	if err != nil {
+		return err
+	}
+	defer fo.Close()
+	enc := json.NewEncoder(fo)
+	probe := &generator.App{}
+	sch := probe.VerifGraph().Schema()
+	typeNames := []string{}
+	for _, t := range sch.Types {
+		typeNames = append(typeNames, t.Type)
+	}
+	sort.Strings(typeNames)
+	canon := func(app *generator.App) string {
+		sc := app.VerifGraph().Schema()
+		sc.Types = nil
+		for id, n := range sc.Nodes {
+			n.Version = 0
+			sc.Nodes[id] = n
+		}
+		b, _ := json.Marshal(sc)
+		return string(b)
+	}
+	for start := 0; start < len(typeNames); start += chunk {
+		end := start + chunk
+		if end > len(typeNames) {
+			end = len(typeNames)
+		}
+		ln := geFileLine{K: "file", File: fmt.Sprintf("alltypes[%d:%d] %s ..", start, end, typeNames[start]), H1: []int{}, H2: []int{}}
+		func() {
+			defer func() {
+				if r := recover(); r != nil {
+					ln.LoadOk = false
+					ln.S1 = fmt.Sprintf("panic: %v", r)
+				}
+			}()
+			app := &generator.App{Name: "alltypes"}
+			inst := app.VerifGraph()
+			for _, t := range typeNames[start:end] {
+				if _, _, err := inst.CreateNode(t); err != nil {
+					ln.S1 = "create " + t + ": " + err.Error()
+					return
+				}
+			}
+			save1 := app.Schema()
+			app2, ok := reloadApp(save1)
+			if !ok {
+				ln.S1 = "reload failed"
+				return
+			}
+			save2 := app2.Schema()
+			ln.LoadOk = true
+			ln.Nodes = len(app2.VerifGraph().Schema().Nodes)
+			ln.H1, ln.H2 = hash3(save1), hash3(save2)
+			ln.S1, ln.S2 = canon(app), canon(app2)
+			if !bytes.Equal(save1, save2) && ln.H1[0] == ln.H2[0] && ln.H1[1] == ln.H2[1] && ln.H1[2] == ln.H2[2] {
+				ln.H2[0] ^= 1
+			}
+		}()
+		if err := enc.Encode(ln); err != nil {
+			return err
+		}
+	}
+	return nil
+}
+
 // GenGraphEdit writes seeded random edit histories. The generator keeps a light
 // shadow of ids and edges only to avoid what the editor's contract excludes and
 // the real code cannot survive (cycles -> unbounded recursion; deleting a node
